@@ -19,12 +19,12 @@ let eid_str e = D_bundle.str_of_bytes (eid_print e)
 let show_frag = function None -> "-" | Some (o, t) -> dec_of_n o ^ "/" ^ dec_of_n t
 let show_rep r =
   Printf.sprintf "[pos %s reason %s flags %s src %s dst %s life %s ref %s-%s-%s frag %s time %s]"
-    (dec_of_n r.sr_pos) (dec_of_n r.sr_reason) (dec_of_n r.sr_flags) (eid_str r.sr_src) (eid_str r.sr_dst) (dec_of_n r.sr_life)
+    (dec_of_n r.rpr_pos) (dec_of_n r.rpr_reason) (dec_of_n r.rpr_flags) (eid_str r.rpr_src) (eid_str r.rpr_dst) (dec_of_n r.rpr_life)
     (eid_str r.sr_ref_src) (dec_of_n r.sr_ref_time) (dec_of_n r.sr_ref_seq) (show_frag r.sr_ref_frag)
-    (match r.sr_time with Some _ -> "yes" | None -> "no")
+    (match r.rpr_time with Some _ -> "yes" | None -> "no")
 
 (* an observed report: Badrep (key, detail) when it is not even a well-shaped status report *)
-type obsrep = { rep : sreport; rpt : eid; time_in_bracket : bool; nblocks : int }
+type obsrep = { rep : rp_sreport; rpt : eid; time_in_bracket : bool; nblocks : int }
 type 'a orbad = Good of 'a | Badrep of (string * string)
 
 let rep_of_s (now : n) s : obsrep orbad =
@@ -40,10 +40,10 @@ let rep_of_s (now : n) s : obsrep orbad =
         | [(pos, (_, req, inb))] ->
           (match lst rf with
            | [rs; rt; rq; isf; off; tot] ->
-             Good { rep = { sr_pos = n_of_int pos; sr_reason = s_n reason; sr_flags = s_n flags; sr_src = D_bundle.s_eid src;
-                          sr_dst = D_bundle.s_eid dst; sr_life = s_n life; sr_ref_src = D_bundle.s_eid rs; sr_ref_time = s_n rt;
+             Good { rep = { rpr_pos = n_of_int pos; rpr_reason = s_n reason; rpr_flags = s_n flags; rpr_src = D_bundle.s_eid src;
+                          rpr_dst = D_bundle.s_eid dst; rpr_life = s_n life; sr_ref_src = D_bundle.s_eid rs; sr_ref_time = s_n rt;
                           sr_ref_seq = s_n rq; sr_ref_frag = (if s_bool isf then Some (s_n off, s_n tot) else None);
-                          sr_time = (if req then Some now else None) };
+                          rpr_time = (if req then Some now else None) };
                   rpt = D_bundle.s_eid rpt; time_in_bracket = inb; nblocks = s_int nbl }
            | _ -> raise (Bad "refbundle"))
         | l -> Badrep ("report.shape.positions", Printf.sprintf "%d status items asserted, not exactly one" (List.length l)))
@@ -51,9 +51,9 @@ let rep_of_s (now : n) s : obsrep orbad =
 
 let kind_name p = match int_of_n p with 0 -> "received" | 1 -> "forwarded" | 2 -> "delivered" | 3 -> "deleted" | _ -> "other"
 
-let key_of_code (c : n) (r : sreport) = match int_of_n c with
-  | 1 | 2 | 3 | 4 -> "report.untruthful." ^ kind_name r.sr_pos
-  | 5 | 6 | 7 | 8 -> "report.unrequested." ^ kind_name r.sr_pos
+let key_of_code (c : n) (r : rp_sreport) = match int_of_n c with
+  | 1 | 2 | 3 | 4 -> "report.untruthful." ^ kind_name r.rpr_pos
+  | 5 | 6 | 7 | 8 -> "report.unrequested." ^ kind_name r.rpr_pos
   | 9 -> "report.shape.flags"
   | 10 -> "report.shape.destination"
   | 11 -> "report.shape.refbundle"
@@ -69,7 +69,7 @@ let prop_checks env b facts (obs : obsrep orbad list) : verdict list =
       | Good o ->
         let codes = rp_check env b facts o.rep in
         List.map (fun c -> Propfail (key_of_code c o.rep, "report " ^ show_rep o.rep ^ " about bundle " ^ D_bundle.str_of_bytes (id_str b))) codes
-        @ (if o.rep.sr_time <> None && not o.time_in_bracket
+        @ (if o.rep.rpr_time <> None && not o.time_in_bracket
            then [Propfail ("report.shape.time", "status time outside the interval in which the node processed the bundle")] else [])
     ) obs
 
@@ -81,15 +81,15 @@ let ev_tag = function
 
 let uniq l = List.sort_uniq compare l
 
-let same_rep (m : sreport) (o : sreport) =
-  m.sr_pos = o.sr_pos && m.sr_reason = o.sr_reason && m.sr_flags = o.sr_flags && m.sr_src = o.sr_src && m.sr_dst = o.sr_dst
-  && m.sr_life = o.sr_life && m.sr_ref_src = o.sr_ref_src && m.sr_ref_time = o.sr_ref_time && m.sr_ref_seq = o.sr_ref_seq
-  && m.sr_ref_frag = o.sr_ref_frag && (m.sr_time <> None) = (o.sr_time <> None)
+let same_rep (m : rp_sreport) (o : rp_sreport) =
+  m.rpr_pos = o.rpr_pos && m.rpr_reason = o.rpr_reason && m.rpr_flags = o.rpr_flags && m.rpr_src = o.rpr_src && m.rpr_dst = o.rpr_dst
+  && m.rpr_life = o.rpr_life && m.sr_ref_src = o.sr_ref_src && m.sr_ref_time = o.sr_ref_time && m.sr_ref_seq = o.sr_ref_seq
+  && m.sr_ref_frag = o.sr_ref_frag && (m.rpr_time <> None) = (o.rpr_time <> None)
 
-let compare_reps ~ordered (model : sreport list) (obs : obsrep orbad list) : verdict list =
+let compare_reps ~ordered (model : rp_sreport list) (obs : obsrep orbad list) : verdict list =
   let obs_ok = List.filter_map (function Good o -> Some o.rep | Badrep _ -> None) obs in
   let show l = String.concat " " (List.map show_rep l) in
-  let canon l = if ordered then l else List.sort compare (List.map (fun r -> { r with sr_time = (match r.sr_time with Some _ -> Some N0 | None -> None) }) l) in
+  let canon l = if ordered then l else List.sort compare (List.map (fun r -> { r with rpr_time = (match r.rpr_time with Some _ -> Some N0 | None -> None) }) l) in
   let m = canon model and o = canon obs_ok in
   if List.length obs_ok <> List.length obs then [Mismatch "an observed report is not a well-shaped status report"]
   else if List.length m = List.length o && List.for_all2 same_rep m o then []
